@@ -111,7 +111,7 @@ impl Property for C01 {
     }
     fn budget(&self, tier: Tier) -> Budget {
         match tier {
-            Tier::Quick => Budget { cases: 2500, shards: 16, min_len: 24, max_len: 260 },
+            Tier::Quick => Budget { cases: 10_000, shards: 16, min_len: 24, max_len: 260 },
             Tier::Thorough => Budget { cases: 120_000, shards: 16, min_len: 24, max_len: 260 },
         }
     }
